@@ -19,6 +19,7 @@ class Program:
         self._index()
         # new helper functions are inlined into their callers before lambdas are collected (the rewritten bodies hold new nodes)
         if not os.environ.get('BLOCHSA_NO_GLOBAL_NORM'):
+            self._unroll_tables()
             self._inline_new_functions()
         self._add_lambdas()
         self._index()
@@ -39,7 +40,21 @@ class Program:
             for b in f.d.get('overrides', []) if hasattr(f, 'd') else []:
                 self._overriders.setdefault(b + f.sig, []).append(f)
 
-    # ---- functions introduced since the anchors were confirmed -------------------------------------
+    # ---- dispatch tables of member pointers -----------------------------------------------------------
+    def _unroll_tables(self):
+        """loops over constant tables of member pointers are replaced by the if-chain they stand for (K-NORM, unroll_memptr_tables);
+        nothing on a tree without such tables"""
+        from .knorm import unroll_memptr_tables
+        self.unrolled_tables = []
+        for f in self.functions:
+            if f.kind == 'lambda' or not f.body or '/third_party/' in f.file:
+                continue
+            nb = unroll_memptr_tables(self, f)
+            if nb is not None:
+                f.body = nb
+                f.d = dict(f.d, body=nb)
+                self.unrolled_tables.append(f.name)
+
     def _inline_new_functions(self):
         """Functions that are not in the canonical table (sa/blochsa/canon_names.json: every function of the tree the rule anchors were
         confirmed on) are *new helpers* — typically steps a maintainer extracted from a long function.  They are inlined (K-NORM,
